@@ -1,6 +1,6 @@
 (* PC11.v — property C11: reported p-values are well-formed and the overall value matches the history.
    Only statements, each closed by `exact`, with Print Assumptions.  Model: NNM.v (mirrors NonnegMean.py). *)
-From SV Require Import NNM NNM_ranges NNM_hist NNM_wf.
+From SV Require Import NNM NNM_ranges NNM_hist NNM_wf NNM_kaplan.
 Open Scope Q_scope.
 
 (* `wellformed r n`: history has n entries, every entry and the overall value are rationals in [0,1] (so never NaN,
@@ -30,6 +30,33 @@ Theorem C11_sprt : forall sqrtq eta N t u xs,
       length (snd r) = length xs /\ Forall unit_x (snd r) /\ fst r = last (snd r) NaN /\ unit_x (fst r)).
 Proof. exact wald_sprt_wellformed. Qed.
 Print Assumptions C11_sprt.
+
+(* Kaplan-Kolmogorov (finite N), Kaplan-Markov, Kaplan-Wald.  `kaplan_wf ro r n`: n entries, all rationals in [0,1],
+   overall value a rational in [0,1]; with random_order it equals (as a number) one of the entries and no entry is
+   smaller; otherwise it equals the last entry.  For Kaplan-Kolmogorov this is the statement that the repaired code
+   never returns NaN when the null conditional mean reaches 0. *)
+Theorem C11_kaplan_kolmogorov : forall g ro n t xs,
+  0 <= g -> xs <> [] -> Forall (fun x => 0 <= x) xs -> (Z.of_nat (length xs) <= n)%Z ->
+  kaplan_wf ro (kaplan_kolmogorov g ro n t xs) (length xs).
+Proof. exact kaplan_kolmogorov_wellformed. Qed.
+Print Assumptions C11_kaplan_kolmogorov.
+
+Theorem C11_kaplan_markov : forall g ro t xs,
+  0 < t -> 0 <= g -> xs <> [] -> Forall (fun x => 0 <= x) xs ->
+  kaplan_wf ro (kaplan_markov g ro t xs) (length xs).
+Proof. exact kaplan_markov_wellformed. Qed.
+Print Assumptions C11_kaplan_markov.
+
+Theorem C11_kaplan_wald : forall g ro t xs,
+  0 < t -> 0 <= g <= 1 -> xs <> [] -> Forall (fun x => 0 <= x) xs ->
+  kaplan_wf ro (kaplan_wald g ro t xs) (length xs).
+Proof. exact kaplan_wald_wellformed. Qed.
+Print Assumptions C11_kaplan_wald.
+
+Example C11_kk_boundary :
+  snd (kaplan_kolmogorov 0 true 4 (1#2) [1; 1; 0; 0]) = [Fin (1#2); Fin (1#6); Fin (1#6); Fin (1#6)]
+  /\ snd (kaplan_kolmogorov 0 true 4 (1#2) [0; 1; 1; 1]) = [Fin 1; Fin 1; Fin 1; Fin 0].
+Proof. split; vm_compute; reflexivity. Qed.
 
 (* non-vacuity: a concrete configuration meets the hypotheses, and the boundary case m_j = 0 -> NaN product is covered *)
 Example C11_hyps_satisfiable :
